@@ -206,7 +206,15 @@ def set_objective(
         if not additive:
             model.solver.objective = value
         else:
-            model.solver.objective += value.expression
+            # Install a new objective instead of editing the installed one in place:
+            # after `objective += expression` the solver interface only sees the
+            # summed expression, so terms that cancel kept their old coefficient
+            # in the solver problem.
+            model.solver.objective = interface.Objective(
+                model.solver.objective.expression + value.expression,
+                direction=model.solver.objective.direction,
+                sloppy=True,
+            )
     else:
         raise TypeError(f"{value} is not a valid objective for {model.solver}.")
 
